@@ -83,6 +83,11 @@ func (dist *GeometricDistribution) LogPdf(r Scalar, x ConstScalar) error {
     return nil
   }
 
+  if x.GetFloat64() == 0.0 {
+    // 0 log(1-p) = 0, also for p = 1
+    r.Set(dist.p1)
+    return nil
+  }
   r.Mul(x, dist.p2)
   r.Add(r, dist.p1)
 
